@@ -10,6 +10,7 @@ CONSTANTS
   MaxAtt = 1
   MaxCrash = 0
   MaxFail = 0
+  EarlyChunks = FALSE
   Survive = FALSE
 VIEW View
 INVARIANTS TypeOK BeliefSound AtMostOnce ExactlyOnceAtEnd FailureFailsRun LockHeld
